@@ -89,7 +89,17 @@ func makeVariant(dict *vx.Dict, dir string, n int, ln *storeLine) (string, error
 		return path, db.Close()
 	}
 	rows := []vx.Row{{{1, 1}, {2, 1}}, {{1, 2}}, {{1, 1}, {2, 2}}}
-	if _, err := buildIndex(dict, dir, fmt.Sprintf("v%d.updog", n), "mem", rows); err != nil {
+	bd := dict
+	if ln.File.V == "garbage" && n%2 == 1 {
+		// an index with several hundred bitmaps: the damaged one is the first, a middle or the last key
+		vals := vx.PickSorted(rand.New(rand.NewSource(int64(n))), nil, 700, func(i int) string { return "v" + padInt(i) })
+		bd = vx.NewDict([]string{"a", "b"}, vals)
+		rows = nil
+		for i := 0; i < 700; i++ {
+			rows = append(rows, vx.Row{{1 + i%2, 1 + i}})
+		}
+	}
+	if _, err := buildIndex(bd, dir, fmt.Sprintf("v%d.updog", n), "mem", rows); err != nil {
 		return "", err
 	}
 	db, err := bbolt.Open(path, 0644, nil)
@@ -113,11 +123,16 @@ func makeVariant(dict *vx.Dict, dir string, n int, ln *storeLine) (string, error
 			b.Put([]byte("I"), []byte{0, 0, 0, 3, 0, 0, 0, 0})
 		}
 		if ln.File.V == "garbage" {
+			var keys [][]byte
 			c := b.Cursor()
 			for k, _ := c.Seek([]byte("V")); k != nil && bytes.HasPrefix(k, []byte("V")); k, _ = c.Next() {
-				return b.Put(append([]byte{}, k...), []byte{1, 2, 3})
+				keys = append(keys, append([]byte{}, k...))
 			}
-			return fmt.Errorf("no V key to damage")
+			if len(keys) == 0 {
+				return fmt.Errorf("no V key to damage")
+			}
+			pos := []int{0, len(keys) / 2, len(keys) - 1, len(keys) / 3}[(n/2)%4]
+			return b.Put(keys[pos], []byte{1, 2, 3})
 		}
 		return nil
 	})
@@ -433,7 +448,7 @@ func recordCrash(args []string) error {
 // killRuns: `updog create [-b]` on a CSV with >2000 distinct values, SIGKILLed after a seeded delay
 // (including 0 and "after it finished").
 func killRuns(w *vx.NDWriter, rng *rand.Rand, dir, bin string, kills int) error {
-	nrows, nv := 6000, 2400
+	nrows, nv := 20000, 6000
 	csvPath := vx.Join(dir, "in.csv")
 	var buf bytes.Buffer
 	buf.WriteString("a,b\n")
@@ -488,7 +503,22 @@ func killRuns(w *vx.NDWriter, rng *rand.Rand, dir, bin string, kills int) error 
 				mult = 4
 			}
 			delay := time.Duration(float64(full) * mult * 1.3 * float64(k) / float64(kills))
-			time.Sleep(delay)
+			if k%2 == 1 {
+				// kill at an observable progress point of the output file instead of a wall-clock instant
+				threshold := []int64{1, 16 << 10, 40 << 10, 70 << 10, 100 << 10, 140 << 10, 200 << 10, 300 << 10, 500 << 10, 1 << 20}[(k/2)%10]
+				deadline := time.Now().Add(20 * time.Second)
+				for time.Now().Before(deadline) {
+					if st, err := os.Stat(outp); err == nil && st.Size() >= threshold {
+						break
+					}
+					if cmd.ProcessState != nil {
+						break
+					}
+					time.Sleep(100 * time.Microsecond)
+				}
+			} else {
+				time.Sleep(delay)
+			}
 			cmd.Process.Signal(syscall.SIGKILL)
 			cmd.Wait()
 			w.Emit(map[string]any{"ev": "Begin", "kind": "cli", "big": big, "total": len(distinct), "batch": 1000, "rows": nrows, "delay_ms": delay.Milliseconds()})
